@@ -213,9 +213,9 @@ def run(check):
                 for i, (k, v) in enumerate(pieces[1:-1]):
                     t += v if k == "lit" else "<?>"
                 text = t
-        js_start = sm.const_string("SOURCE_MAP_INLINE_LINE_START")
+        js_start = sm.marker_strings()[1]
         c.expect(text is not None and text.lstrip("\n") == js_start, R, R + "/trailer", "js/source-map/index.js", "reader %r == writer %r" % (js_start, text), "Rust writes trailer %r but the JS reader looks for %r" % (text, js_start))
-        plain = sm.const_string("SOURCE_MAP_LINE_START")
+        plain = sm.marker_strings()[0]
         c.expect(js_start.startswith(plain), R, R + "/prefix", "js/source-map/index.js", "inline marker extends the plain marker", "SOURCE_MAP_LINE_START %r is not a prefix of the inline marker" % plain)
         variants = [v["name"].lower() for v in prog.adt("transform_status::Status")["variants"]]
         n = 0
@@ -320,8 +320,38 @@ def run(check):
     check.rule(R3, "getPathAndLine looks up (line - 1, column - 1) and reports (originalLine + 1, originalColumn + 1); its fall-through returns the three parameters unchanged and the map-dependent part is inside try")
 
     def idx(c):
+        from .. import jsflow as JFm
+        from .. import jsguards as _jg
+
+        Fs = _jg.File(sm)
         g = sm.function("getPathAndLine")
         params = [jsast.param_name(p) for p in g["params"]]
+        # the position is three parameters (file, line, column) or one location object { path, line, column }
+        if len(params) >= 4:
+            pos = {"path": params[1], "line": params[2], "column": params[3]}
+            whole = None
+        elif len(params) == 2 and params[1]:
+            pos = {k_: "%s.%s" % (params[1], k_) for k_ in ("path", "line", "column")}
+            whole = params[1]
+        else:
+            raise AnchorMissing("position parameters of getPathAndLine")
+
+        def obj_fields(fn_, e, depth=0):
+            """{key: text} of an object literal (through a constant holding it), else None"""
+            e = JFm.unparen(e)
+            if e.get("type") == "Identifier" and depth < 2:
+                init = Fs.resolve_const(fn_)(e["value"])
+                return obj_fields(fn_, init, depth + 1) if init is not None else None
+            if e.get("type") != "ObjectExpression":
+                return None
+            d = {}
+            for p in e.get("properties", []):
+                if p.get("type") == "Identifier":
+                    d[p["value"]] = p["value"]
+                elif p.get("type") == "KeyValueProperty":
+                    d[p["key"]["value"]] = JFm.text(p["value"])
+            return d
+
         fe = [x for x in jsast.walk(g) if x.get("type") == "CallExpression" and (callee_name(x) or [""])[-1] == "findEntry"]
         c.floor(R3, "findEntry calls", len(fe), 1)
         for x in fe:
@@ -329,15 +359,17 @@ def run(check):
             shape = []
             for a in args:
                 if a.get("type") == "BinaryExpression" and a["right"].get("type") == "NumericLiteral":
-                    shape.append((jsast.ident_name(a["left"]), a["operator"], a["right"]["value"]))
+                    shape.append((JFm.text(a["left"]), a["operator"], a["right"]["value"]))
                 else:
                     shape.append(("?",))
-            c.expect(shape == [(params[2], "-", 1.0), (params[3], "-", 1.0)] and (callee_name(x) or [""])[0] == params[0], R3, R3 + "/lookup", sm.loc(x), "findEntry(line - 1, column - 1) on the sourceMap parameter", "findEntry is called with %s" % shape)
+            c.expect(shape == [(pos["line"], "-", 1.0), (pos["column"], "-", 1.0)] and (callee_name(x) or [""])[0] == params[0], R3, R3 + "/lookup", sm.loc(x), "findEntry(line - 1, column - 1) on the sourceMap parameter", "findEntry is called with %s" % shape)
         rets = [x for x in jsast.walk(g) if x.get("type") == "ReturnStatement"]
         shapes = []
         for r in rets:
             obj = r.get("argument") or {}
             d = {}
+            if whole and jsast.ident_name(obj) == whole:
+                d = {k_: ("id", v_) for k_, v_ in pos.items()}  # the location object itself, unchanged
             for p in obj.get("properties", []):
                 if p.get("type") == "Identifier":
                     d[p["value"]] = ("id", p["value"])
@@ -345,28 +377,36 @@ def run(check):
                     v = p["value"]
                     if v.get("type") == "BinaryExpression" and v["right"].get("type") == "NumericLiteral":
                         d[p["key"]["value"]] = (jsast.ident_name(v["left"]), v["operator"], v["right"]["value"])
-                    elif v.get("type") == "Identifier":
-                        d[p["key"]["value"]] = ("id", v["value"])
+                    elif v.get("type") in ("Identifier", "MemberExpression"):
+                        d[p["key"]["value"]] = ("id", JFm.text(v))
                     else:
                         d[p["key"]["value"]] = ("expr",)
             shapes.append((r, d))
         conv = [d for r, d in shapes if d.get("line") == ("originalLine", "+", 1.0)]
         c.expect(len(conv) == 1 and conv[0].get("column") == ("originalColumn", "+", 1.0), R3, R3 + "/result", sm.loc(g), "line: originalLine + 1, column: originalColumn + 1", "translated position is reported as %s" % [d for r, d in shapes])
         last = g["body"]["stmts"][-1]
-        passthru = {"path": ("id", params[1]), "line": ("id", params[2]), "column": ("id", params[3])}
+        passthru = {k_: ("id", v_) for k_, v_ in pos.items()}
         others = [d for r, d in shapes if d is not (conv[0] if conv else None)]
         okf = bool(others) and all(d == passthru for d in others) and _always_returns(g["body"]["stmts"])
         c.expect(bool(okf), R3, R3 + "/pass-through", sm.loc(last), "every other exit returns { path: filename, line, column } unchanged", "getPathAndLine has an exit that does not return its parameters unchanged: %s" % ([d for d in others if d != passthru] or "falls off the end"))
         trys = [x for x in g["body"]["stmts"] if x.get("type") == "TryStatement"]
         inside = trys and all(any(y is x for y in jsast.walk(trys[0]["block"])) for x in fe)
         c.expect(bool(inside) and trys[0].get("handler") is not None, R3, R3 + "/never-throws", sm.loc(g), "lookup inside try/catch", "the map lookup can throw out of getPathAndLine")
+
+        def forwards(fn_, call, names3):
+            """does the call hand (names3) on as the position: three arguments, or one location object"""
+            a_ = call_args(call)[1:]
+            if whole is None:
+                return [jsast.ident_name(x) for x in a_] == names3
+            return len(a_) == 1 and obj_fields(fn_, a_[0]) == dict(zip(("path", "line", "column"), names3))
+
         # destructured names come from findEntry's result
         h = sm.function("getSourcePathAndLineFromSourceMaps")
         hp = [jsast.param_name(p) for p in h["params"]]
         gets = [x for x in jsast.walk(h) if x.get("type") == "CallExpression" and callee_name(x) == [jsast.cache_roles(sm)["rewritten"], "get"]]
         okg = len(gets) == 1 and jsast.ident_name(call_args(gets[0])[0]) == hp[0]
         fwd = [x for x in jsast.walk(h) if x.get("type") == "CallExpression" and callee_name(x) == ["getPathAndLine"]]
-        okw = len(fwd) == 1 and [jsast.ident_name(a) for a in call_args(fwd[0])][1:] == hp[:3]
+        okw = len(fwd) == 1 and forwards(h, fwd[0], hp[:3])
         c.expect(okg and okw, R3, R3 + "/cache-lookup", sm.loc(h), "looks up the cache by file name and forwards (filename, line, column)", "getSourcePathAndLineFromSourceMaps does not look up by file name / forward its arguments")
         o = sm.function("getOriginalPathAndLineFromSourceMap")
         op = [jsast.param_name(p) for p in o["params"]]
@@ -377,15 +417,10 @@ def run(check):
             arg = r_.get("argument") or {}
             if arg.get("type") == "CallExpression" and callee_name(arg) == ["getPathAndLine"]:
                 # getPathAndLine itself hands its parameters back when it has no map (checked above)
-                if [jsast.ident_name(a) for a in call_args(arg)][1:] == op[:3]:
+                if forwards(o, arg, op[:3]):
                     n_pass += 1
                 continue
-            d = {}
-            for p in arg.get("properties", []) if arg.get("type") == "ObjectExpression" else []:
-                if p.get("type") == "Identifier":
-                    d[p["value"]] = p["value"]
-                elif p.get("type") == "KeyValueProperty" and p["value"].get("type") == "Identifier":
-                    d[p["key"]["value"]] = p["value"]["value"]
+            d = obj_fields(o, arg) or {}
             if d == {"path": op[0], "line": op[1], "column": op[2]}:
                 n_pass += 1
             else:
@@ -466,7 +501,7 @@ def run(check):
 
     def guards(c):
         from .. import jsguards
-        jsguards.run(check, c, R6, main, sm, st, sm.const_string("SOURCE_MAP_INLINE_LINE_START"))
+        jsguards.run(check, c, R6, main, sm, st, sm.marker_strings()[1])
 
     check.guarded(R6, guards)
 
